@@ -966,6 +966,31 @@ func (sc *SpecCtx) evalCall(e *ECall) (Val, error) {
 			}
 		}
 		return Val{T: app("i.val", sc.term(v)), Ty: ty, Sort: "Int"}, nil
+	case "load":
+		// load(x): the value held by a typed atomic (atomic.Pointer[T] -> *T, atomic.Int32 -> int32, ...)
+		v, err := sc.eval(e.Args[0])
+		if err != nil {
+			return Val{}, err
+		}
+		if nt, ok := types.Unalias(v.Ty).(*types.Named); ok && nt.Obj().Pkg() != nil && nt.Obj().Pkg().Path() == "sync/atomic" {
+			switch nt.Obj().Name() {
+			case "Pointer":
+				if ta := nt.TypeArgs(); ta != nil && ta.Len() == 1 {
+					return Val{T: sc.term(v), Ty: types.NewPointer(ta.At(0))}, nil
+				}
+			case "Int32":
+				return Val{T: sc.term(v), Ty: types.Typ[types.Int32]}, nil
+			case "Int64":
+				return Val{T: sc.term(v), Ty: types.Typ[types.Int64]}, nil
+			case "Uint32":
+				return Val{T: sc.term(v), Ty: types.Typ[types.Uint32]}, nil
+			case "Uint64":
+				return Val{T: sc.term(v), Ty: types.Typ[types.Uint64]}, nil
+			case "Bool":
+				return Val{T: sc.term(v), Ty: types.Typ[types.Bool]}, nil
+			}
+		}
+		return Val{}, fmt.Errorf("load(): argument is not a typed atomic (%v)", v.Ty)
 	case "blen":
 		v, err := sc.eval(e.Args[0])
 		if err != nil {
